@@ -299,8 +299,10 @@ pub fn run(cfg: &RunCfg) -> Report {
                         }
                         Err(e) => {
                             rep.count("unobserved");
-                            if warnings.iter().any(|w| w.contains(&format!("{i}"))) {
+                            if let Some(w) = warnings.iter().find(|w| w.contains(&format!("{i}"))) {
+                                // every generated constraint is satisfiable: a definition that is dropped got no integer type at all
                                 rep.count("unobserved-with-warning");
+                                rep.unsat("", false, json!({"why": format!("a legal constrained INTEGER is dropped with a warning, so no type holds its values: {}", w.chars().take(200).collect::<String>()), "case": c.describe(i)}));
                             } else {
                                 rep.harness_errors.push(format!("case {} not observed: {e}", c.asn(i)));
                             }
